@@ -195,7 +195,7 @@ def c02(case, lines, exact=False, idem_sessions=False):
                               or (prev.startswith(("check_resource_end", "check_task_end")) and not prev.endswith(" consistent")))
                     if not okprev:
                         fails.append(f"session {i} '{o.text}': {t} executed although the preceding event '{prev}' is neither its first require nor an inconsistent/failed dependency check")
-            root = o.text
+            root = o.text if o.known is None else f"reqknown {o.known}"
             if root in seen_roots and any(e.startswith("execute_start") for e in o.ev):
                 fails.append(f"session {i}: requiring '{root}' again with nothing changed executed {[e for e in o.ev if e.startswith('execute_start')]}")
             if o.result and o.result.startswith("out "): seen_roots[root] = True
